@@ -33,12 +33,13 @@ def _is_error_test(node):
 
 
 class Run:
-    def __init__(self, prog, F, atoms, also=(), stop_at=()):
+    def __init__(self, prog, F, atoms, also=(), stop_at=(), keep=(), fork=False):
+        self.fork = fork              # an undecidable condition: follow both branches (may-trace) instead of giving up
         self.prog, self.F, self.atoms = prog, F, dict(atoms)
         self.store = {}
         self.trace = []          # ("call", name, [arg values], snapshot of the store)
         self.stop_at = set(stop_at)
-        self.events = flatten(prog, F, [F.body], also=also)
+        self.events = flatten(prog, F, [F.body], also=also, exclude=tuple(keep) + tuple(stop_at))   # keep: never inlined, stay call events
         self.stopped = False
         self.retvals = {}
 
@@ -161,6 +162,31 @@ class Run:
         self._seq(self.events)
         return self.trace
 
+    def _both(self, branches):
+        """follow every branch from the same store; afterwards a location holds its value only where all branches agree.
+        Returns the function whose return ended ALL branches, else None"""
+        base = dict(self.store)
+        outs, ends = [], []
+        for b in branches:
+            self.store = dict(base)
+            ends.append(self._seq(b))
+            outs.append(self.store)
+            if self.stopped:
+                self.stopped = False      # a stop inside one branch does not stop the sibling branches
+                ends[-1] = ends[-1] or "<stop>"
+        merged = {}
+        for k_ in set().union(*[set(o) for o in outs]):
+            vals = [o.get(k_, base.get(k_)) for o in outs]
+            merged[k_] = vals[0] if all((v == vals[0]) and (type(v) is type(vals[0])) for v in vals) else Sym("<either:%s>" % k_)
+        self.store = merged
+        if all(e_ is not None for e_ in ends):
+            real = [e_ for e_ in ends if e_ != "<stop>"]
+            if not real:
+                self.stopped = True
+                return None
+            return real[0]
+        return None
+
     def _seq(self, events):
         skip_to = None
         for i, e in enumerate(events):
@@ -207,11 +233,23 @@ class Run:
                         t = not exits_then if e[3] else False
                         if exits_then:
                             t = False
+                    elif self.fork:
+                        ended = self._both([e[3], e[4]])
+                        t = "forked"
                     else:
                         raise Undecided("condition %s cannot be evaluated in the scenario" % render(e[1], e[2]))
-                ended = self._seq(e[3] if t else e[4])
+                if t != "forked":
+                    ended = self._seq(e[3] if t else e[4])
             elif k == "switch":
                 v = self.ev(e[1], e[2])
+                if (not isinstance(v, int) or isinstance(v, Sym)) and self.fork:
+                    ended = self._both([b for _, b in e[3]] + [[]])
+                    if ended is not None:
+                        if any(x[0] == "leave" and x[1] == ended for x in events[i + 1:]):
+                            skip_to = ended
+                        else:
+                            return ended
+                    continue
                 if not isinstance(v, int) or isinstance(v, Sym):
                     raise Undecided("switch on %s cannot be evaluated in the scenario" % render(e[1], e[2]))
                 body = None
